@@ -118,3 +118,15 @@ func AnyAwaitables(awaitables ...channels.Awaitable) channels.Awaitable {
 	}
 	return agg
 }
+
+// AllAwaitables replaces gotils' reflect.Select based version: signalled when every given awaitable is.
+func AllAwaitables(awaitables ...channels.Awaitable) channels.Awaitable {
+	agg := channels.NewSignalAwaitable()
+	go func() {
+		for _, a := range awaitables {
+			<-a.Channel()
+		}
+		agg.Signal()
+	}()
+	return agg
+}
